@@ -7,9 +7,14 @@ result of evaluation independent of every rearrangement the property talks about
 The harness compares this semantics with the implementation on generated programs and
 their rearrangements.
 
+The last section does the same for TOP-LEVEL disjunctions with default marks
+(Model/CoreDisj.lean), where values are compared by `DEquiv` (same disjuncts, same
+defaults, same "has marks").
+
 Only statements live here; the proofs are in CueVerif/Proofs/Core*.lean.
 -/
 import CueVerif.Proofs.Core
+import CueVerif.Proofs.CoreDisj
 namespace CueVerif.C01
 open CueVerif CueVerif.Core
 
@@ -166,5 +171,91 @@ example : eval (.and (.listL [.lit .tInt]) (.listL [.lit .tInt, .lit .tInt])) = 
 
 /-- test: the sample expression evaluates to the closed struct `{a: 1}` -/
 example : eval exE = .struct (.cons (.some .regular (.sc (.int 1))) .nil) true := by decide
+
+/-! ### top-level disjunctions with default marks (phase 3) -/
+
+/-- Conjunct order with disjunctive operands: same disjuncts, same defaults. -/
+theorem C01_disj_comm (x y : DVal) : DEquiv (unifyD x y) (unifyD y x) :=
+  unifyD_comm x y
+
+/-- Conjunct grouping with disjunctive operands. -/
+theorem C01_disj_assoc (x y z : DVal) : DEquiv (unifyD (unifyD x y) z) (unifyD x (unifyD y z)) :=
+  unifyD_assoc x y z
+
+/-- `& _` changes nothing. -/
+theorem C01_disj_top (x : DVal) : DEquiv (unifyD x (.single .top)) x :=
+  unifyD_top x
+
+/-- On disjunction-free operands `unifyD` is `unify`. -/
+theorem C01_disj_single (a b : Val) : DEquiv (unifyD (.single a) (.single b)) (.single (unify a b)) :=
+  unifyD_single a b
+
+/-- `DEquiv` is an equivalence respected by `&`, `|` and `*`. -/
+theorem C01_disj_congr :
+    (∀ x, DEquiv x x) ∧ (∀ x y, DEquiv x y → DEquiv y x) ∧
+    (∀ x y z, DEquiv x y → DEquiv y z → DEquiv x z) ∧
+    (∀ x x' y y', DEquiv x x' → DEquiv y y' → DEquiv (unifyD x y) (unifyD x' y')) ∧
+    (∀ x x' y y', DEquiv x x' → DEquiv y y' → DEquiv (orD x y) (orD x' y')) ∧
+    (∀ x x', DEquiv x x' → DEquiv (markD x) (markD x')) :=
+  ⟨DEquiv.refl, fun _ _ => DEquiv.symm, fun _ _ _ => DEquiv.trans,
+   fun _ _ _ _ => unifyD_congr, fun _ _ _ _ => orD_congr, fun _ _ => markD_congr⟩
+
+/-- Disjunct order and grouping (with the D1/D2 default rules). -/
+theorem C01_or_comm (x y : DVal) : DEquiv (orD x y) (orD y x) :=
+  orD_comm x y
+
+theorem C01_or_assoc (x y z : DVal) : DEquiv (orD (orD x y) z) (orD x (orD y z)) :=
+  orD_assoc x y z
+
+/-- test: `(*1 | 2) & (1 | *2)` has the disjuncts 1, 2 and no default; and the other order -/
+example : unifyD ⟨[(.sc (.int 1), true), (.sc (.int 2), false)], true⟩
+      ⟨[(.sc (.int 1), false), (.sc (.int 2), true)], true⟩ =
+    ⟨[(.sc (.int 1), false), (.bot, true), (.bot, false), (.sc (.int 2), false)], true⟩ := by
+  decide
+
+/-- `{a: 1}`, `{b: 2}`, `{a: 1, b: 2}` -/
+def exSA : Val := .struct (.cons (.some .regular (.sc (.int 1))) .nil) false
+def exSB : Val := .struct (.cons .none (.cons (.some .regular (.sc (.int 2))) .nil)) false
+def exSAB : Val := .struct (.cons (.some .regular (.sc (.int 1)))
+  (.cons (.some .regular (.sc (.int 2))) .nil)) false
+/-- `{a: 1} | {b: 2}` -/
+def exD : DVal := { items := [(exSA, true), (exSB, true)], hm := false }
+
+/-- Repeating a disjunctive conjunct: FALSE in general — `x & x` for `x = {a: 1} | {b: 2}`
+has the extra disjunct `{a: 1, b: 2}` (unification distributes, the cross terms of
+overlapping open structs are not bottom).  To be replayed on the implementation by the
+harness. -/
+def C01_disj_idem_stmt : Prop :=
+  ∀ x : DVal, (∀ a, x.mem a → a.WF) → DEquiv (unifyD x x) x
+
+theorem C01_disj_idem_false : ¬ C01_disj_idem_stmt := by
+  intro h
+  have hwf : ∀ a, exD.mem a → a.WF := by
+    rintro a ⟨_, b, hb⟩
+    simp only [exD, List.mem_cons, Prod.mk.injEq, List.not_mem_nil, or_false] at hb
+    rcases hb with ⟨rfl, _⟩ | ⟨rfl, _⟩ <;> decide
+  have h1 : (unifyD exD exD).mem exSAB :=
+    (mem_unifyD _ _ _).2 ⟨by decide, exSA, exSB,
+      ⟨by decide, true, by simp [exD]⟩, ⟨by decide, true, by simp [exD]⟩, by decide⟩
+  obtain ⟨_, b, hb⟩ := ((h exD hwf).mem exSAB).1 h1
+  simp only [exD, List.mem_cons, Prod.mk.injEq, List.not_mem_nil, or_false] at hb
+  rcases hb with ⟨hb, _⟩ | ⟨hb, _⟩ <;> exact absurd hb (by decide)
+
+
+/-- … but TRUE when distinct disjuncts exclude each other (e.g. distinct scalars, closed
+structs with different fields). -/
+theorem C01_disj_idem_partial (x : DVal) (hwf : ∀ a, x.mem a → a.WF)
+    (hex : ∀ a b, x.mem a → x.mem b → a ≠ b → unify a b = .bot) : DEquiv (unifyD x x) x :=
+  unifyD_idem_of_exclusive x hwf hex
+
+/-- Any composition of: conjunct order / grouping / `& _`, disjunct order / grouping, any
+rearrangement inside a disjunction-free leaf, moving `&` between the levels — under `&`,
+`|` and `*` at any depth — preserves the value (disjuncts, defaults, marks). -/
+theorem C01_disj_rearrangement (e e' : DExpr) (h : DRearr e e') : DEquiv (evalD e) (evalD e') :=
+  evalD_rearr h
+
+example : DRearr (.and (.or (.mark (.leaf (.lit (.int 1)))) (.leaf (.lit (.int 2)))) (.leaf (.lit .tInt)))
+    (.and (.leaf (.lit .tInt)) (.or (.leaf (.lit (.int 2))) (.mark (.leaf (.lit (.int 1)))))) :=
+  .trans (.and_comm _ _) (.and_congr (.refl _) (.or_comm _ _))
 
 end CueVerif.C01
